@@ -133,20 +133,22 @@ def main(argv=None):
     prop.l1_results = results
     l2 = prop.oracle(tier, rng, [m[0] for m in mism])
     failures.extend(l2.get('failures', []))
+    kf = known_findings(pid)
     if mism:
         first = mism[0]
         # an L1 disagreement with a direct reading as a property failure (e.g. a panic)
         direct = prop.direct_failure(first[0], first[1], first[2], first[3])
         if direct:
             failures.append(direct)
-        elif not failures:
+        # the correspondence is broken and no failing input explains it: a failure that is a listed known finding
+        # explains nothing (it is there on the unchanged tree as well)
+        if not any(not any(finding_matches(k, f) for k in kf) for f in failures):
             broken.append(dict(kind='correspondence-L1',
                                what='model and real expansion differ (tag %s)' % prop.tag,
                                input=first[0].input_text(), expected=first[1], observed=first[2],
                                n_disagreeing=len(mism)))
 
     # 5. verdict ------------------------------------------------------------------------
-    kf = known_findings(pid)
     violations = 0
     lines = []
     reported = set()
